@@ -14,6 +14,7 @@ import (
 	"net/http"
 	"net/http/httptest"
 	"os"
+	"os/exec"
 	"path/filepath"
 	"strconv"
 	"strings"
@@ -46,9 +47,23 @@ type c31In struct {
 	Script   []c31Beh `json:"script"`
 	// download cache scenario: cache on, and a second Download of the same DownloadInfo to another target path
 	Second *c31Second `json:"second,omitempty"`
+	Third  *c31Second `json:"third,omitempty"`
+	// a file already at the first target path (only in the cache scenario; outside the property, model tie only)
+	Pre *string `json:"pre,omitempty"`
+	// delta scenario: DownloadInfo carries one delta, xdelta3 is a fake whose behaviour is chosen here
+	Delta *c31Delta `json:"delta,omitempty"`
+}
+
+type c31Delta struct {
+	FormatOK    bool   `json:"format_ok"`
+	FromPresent bool   `json:"from_present"`
+	Content     string `json:"content"` // the delta file whose digest is declared
+	X           string `json:"x"`       // fail | write | none
+	Out         string `json:"out"`     // write: what the fake xdelta3 puts into targetPath.partial
 }
 
 type c31Second struct {
+	Pre     *string  `json:"pre,omitempty"` // a file already at this call's target path
 	Partial *string  `json:"partial"`
 	Leave   bool     `json:"leave"`
 	Script  []c31Beh `json:"script"`
@@ -60,6 +75,7 @@ type c31Obs struct {
 	Partial  bool    `json:"partial"`
 	Requests int     `json:"requests"`
 	Second   *c31Obs `json:"second,omitempty"`
+	Third    *c31Obs `json:"third,omitempty"`
 }
 
 func c31Serve(script []c31Beh, served *int) http.Handler {
@@ -135,9 +151,14 @@ func c31Sha(s string) string {
 }
 
 // one Download call against a fresh server playing script; returns the observation and the three Coq terms
-func c31Call(sto *Store, dir, sub string, in c31In, partial *string, leave bool, script []c31Beh) (c31Obs, string, string, string) {
+func c31Call(sto *Store, dir, sub string, in c31In, pre, partial *string, leave bool, script []c31Beh) (c31Obs, string, string, string) {
 	target := filepath.Join(dir, sub, "foo.snap")
 	os.MkdirAll(filepath.Dir(target), 0755)
+	if pre != nil {
+		if err := os.WriteFile(target, []byte(*pre), 0600); err != nil {
+			panic(err)
+		}
+	}
 	if partial != nil {
 		if err := os.WriteFile(target+".partial", []byte(*partial), 0600); err != nil {
 			panic(err)
@@ -147,6 +168,33 @@ func c31Call(sto *Store, dir, sub string, in c31In, partial *string, leave bool,
 	srv := httptest.NewServer(c31Serve(script, &served))
 	defer srv.Close()
 	info := &snap.DownloadInfo{DownloadURL: srv.URL + "/dl", Size: in.Size, Sha3_384: c31Sha(in.Content)}
+	if d := in.Delta; d != nil {
+		format := "xdelta3"
+		if !d.FormatOK {
+			format = "bsdiff"
+		}
+		info.Deltas = []snap.DeltaInfo{{FromRevision: 1, ToRevision: 2, Format: format, DownloadURL: srv.URL + "/delta",
+			Size: int64(len(d.Content)), Sha3_384: c31Sha(d.Content)}}
+		if d.FromPresent {
+			os.MkdirAll(dirs.SnapBlobDir, 0755)
+			os.WriteFile(filepath.Join(dirs.SnapBlobDir, "foo_1.snap"), []byte("old revision"), 0600)
+		}
+		// the fake xdelta3: args are -d -s <from> <delta> <out>
+		body := "exit 0\n"
+		switch d.X {
+		case "fail":
+			body = "printf 'half' > \"$5\"\nexit 1\n"
+		case "write":
+			body = "printf '%s' '" + d.Out + "' > \"$5\"\nexit 0\n"
+		}
+		fake := filepath.Join(dir, "xdelta3.sh")
+		if err := os.WriteFile(fake, []byte("#!/bin/sh\n"+body), 0755); err != nil {
+			panic(err)
+		}
+		yes := true
+		sto.shouldUseDeltas = &yes
+		sto.xdelta3CmdFunc = func(args ...string) *exec.Cmd { return exec.Command(fake, args...) }
+	}
 	derr := sto.Download(context.Background(), "foo", target, info, nil, nil, &DownloadOptions{LeavePartialOnError: leave})
 	obs := c31Obs{Err: "none"}
 	cerr := "ENone"
@@ -212,13 +260,15 @@ func c31Exec(in c31In) vh.Out {
 	defer func() { downloadRetryStrategy = old }()
 
 	cfg := &Config{} // no download cache (CacheDownloads = 0), no device/auth context
-	if in.Second != nil {
-		dirs.SetRootDir(dir) // the cache lives in dirs.SnapDownloadCacheDir
+	if in.Second != nil || in.Delta != nil {
+		dirs.SetRootDir(dir) // the cache lives in dirs.SnapDownloadCacheDir, the base snap of a delta in dirs.SnapBlobDir
 		defer dirs.SetRootDir("/")
+	}
+	if in.Second != nil {
 		cfg.CacheDownloads = 3
 	}
 	sto := New(cfg, nil)
-	obs, cerr, ctarget, cpartial := c31Call(sto, dir, "t", in, in.Partial, in.Leave, in.Script)
+	obs, cerr, ctarget, cpartial := c31Call(sto, dir, "t", in, in.Pre, in.Partial, in.Leave, in.Script)
 	served := obs.Requests
 
 	pclass := "p-none"
@@ -239,33 +289,70 @@ func c31Exec(in c31In) vh.Out {
 	}
 	tags := []string{"err-" + obs.Err, pclass, fmt.Sprintf("requests-%d", served)}
 	var coq string
-	if in.Second == nil {
+	switch {
+	case in.Delta != nil:
+		d := in.Delta
+		x := "XNoOutput"
+		switch d.X {
+		case "fail":
+			x = "XFail"
+		case "write":
+			x = "(XWrite " + vh.CoqBytes(d.Out) + ")"
+		}
+		coq = fmt.Sprintf("(Download.CaseDelta %s %s %s %s %s {| d_format_ok := %s; d_from_present := %s; d_content := %s; d_x := %s |} %s %s %s %s)",
+			vh.CoqN(uint64(in.Size)), vh.CoqBytes(in.Content), c31CoqOpt(in.Partial), vh.CoqBool(in.Leave), vh.CoqNat(in.Attempts),
+			vh.CoqBool(d.FormatOK), vh.CoqBool(d.FromPresent), vh.CoqBytes(d.Content), x, c31CoqScript(in.Script), cerr, ctarget, cpartial)
+		tags = append(tags, "delta", "delta-x-"+d.X)
+		if obs.Err == "none" && served <= 1 && d.X != "fail" {
+			tags = append(tags, "delta-applied")
+		}
+	case in.Second == nil:
 		coq = fmt.Sprintf("(Download.Case %s %s %s %s %s %s %s %s %s)", vh.CoqN(uint64(in.Size)), vh.CoqBytes(in.Content), c31CoqOpt(in.Partial),
 			vh.CoqBool(in.Leave), vh.CoqNat(in.Attempts), c31CoqScript(in.Script), cerr, ctarget, cpartial)
-	} else {
-		obs2, cerr2, ctarget2, cpartial2 := c31Call(sto, dir, "t2", in, in.Second.Partial, in.Second.Leave, in.Second.Script)
-		obs.Second = &obs2
-		coq = fmt.Sprintf("(Download.CaseCached %s %s %s %s %s %s %s %s %s %s %s %s %s %s %s)", vh.CoqN(uint64(in.Size)), vh.CoqBytes(in.Content), c31CoqOpt(in.Partial),
-			vh.CoqBool(in.Leave), vh.CoqNat(in.Attempts), c31CoqScript(in.Script),
-			c31CoqOpt(in.Second.Partial), vh.CoqBool(in.Second.Leave), c31CoqScript(in.Second.Script),
-			cerr, ctarget, cpartial, cerr2, ctarget2, cpartial2)
-		tags = append(tags, "cache-on", "second-err-"+obs2.Err)
-		if obs.Err == "none" && obs2.Requests == 0 {
-			tags = append(tags, "cache-hit")
+	default:
+		call := func(pre, partial *string, leave bool, script []c31Beh) string {
+			return fmt.Sprintf("{| k_pre := %s; k_partial := %s; k_leave := %s; k_script := %s |}", c31CoqOpt(pre), c31CoqOpt(partial), vh.CoqBool(leave), c31CoqScript(script))
 		}
-		if obs2.Target != nil && *obs2.Target != in.Content {
-			tags = append(tags, "TARGET-DIGEST-MISMATCH")
+		calls := []string{call(in.Pre, in.Partial, in.Leave, in.Script)}
+		observed := []string{fmt.Sprintf("(%s, %s, %s)", cerr, ctarget, cpartial)}
+		tags = append(tags, "cache-on")
+		hit := obs.Err == "none"
+		for i, sec := range []*c31Second{in.Second, in.Third} {
+			if sec == nil {
+				continue
+			}
+			o, ce, ct, cp := c31Call(sto, dir, fmt.Sprintf("t%d", i+2), in, sec.Pre, sec.Partial, sec.Leave, sec.Script)
+			if i == 0 {
+				obs.Second = &o
+			} else {
+				obs.Third = &o
+			}
+			calls = append(calls, call(sec.Pre, sec.Partial, sec.Leave, sec.Script))
+			observed = append(observed, fmt.Sprintf("(%s, %s, %s)", ce, ct, cp))
+			if hit && o.Requests == 0 && o.Err == "none" {
+				tags = append(tags, "cache-hit")
+			}
+			if o.Err == "none" {
+				hit = true
+			}
+			if sec.Pre != nil {
+				tags = append(tags, "pre-existing-target")
+			} else if o.Target != nil && *o.Target != in.Content {
+				tags = append(tags, "TARGET-DIGEST-MISMATCH")
+			}
 		}
+		coq = fmt.Sprintf("(Download.CaseSeq %s %s %s %s %s)", vh.CoqN(uint64(in.Size)), vh.CoqBytes(in.Content), vh.CoqNat(in.Attempts),
+			vh.CoqList(calls), vh.CoqList(observed))
 	}
 	if in.Size == 0 {
 		tags = append(tags, "size-unknown")
 	} else if in.Size != int64(len(in.Content)) {
 		tags = append(tags, "size-inconsistent")
 	}
-	if obs.Target != nil && *obs.Target != in.Content {
+	if in.Pre == nil && obs.Target != nil && *obs.Target != in.Content {
 		tags = append(tags, "TARGET-DIGEST-MISMATCH")
 	}
-	return vh.Out{Observed: obs, Coq: coq, NonTrivial: served >= 2 || (in.Partial != nil && *in.Partial != "" && served >= 1) || in.Second != nil, Tags: tags}
+	return vh.Out{Observed: obs, Coq: coq, NonTrivial: served >= 2 || (in.Partial != nil && *in.Partial != "" && served >= 1) || in.Second != nil || in.Delta != nil, Tags: tags}
 }
 
 const c31Alpha = "abc"
@@ -371,6 +458,19 @@ func c31Gen(r *vh.Rand, tier string, n int) []c31In {
 		c31In{Size: 0, Content: "abcd", Partial: sp("XXXXXXXX"), Attempts: 3, Script: []c31Beh{e5(503, "err"), good("abcd")}},
 		c31In{Size: 4, Content: "abcd", Attempts: 4, Script: []c31Beh{early("XXXXXXXX", 8), e5(404, "err"), good("abcd")}},
 	)
+	// deltas: applied; wrong output then full download; xdelta3 fails over an existing partial; no output with a complete partial
+	dsrv := func(c string) c31Beh { return c31Beh{Kind: "resp", Status: 200, HR: true, Body: c, Cut: "full"} }
+	ins = append(ins,
+		c31In{Size: 4, Content: "abcd", Attempts: 3, Script: []c31Beh{dsrv("dd")}, Delta: &c31Delta{FormatOK: true, FromPresent: true, Content: "dd", X: "write", Out: "abcd"}},
+		c31In{Size: 4, Content: "abcd", Attempts: 3, Script: []c31Beh{dsrv("dd"), good("abcd")}, Delta: &c31Delta{FormatOK: true, FromPresent: true, Content: "dd", X: "write", Out: "abcX"}},
+		c31In{Size: 4, Content: "abcd", Partial: sp("ab"), Attempts: 3, Script: []c31Beh{dsrv("dd"), good("abcd")}, Delta: &c31Delta{FormatOK: true, FromPresent: true, Content: "dd", X: "fail"}},
+		c31In{Size: 4, Content: "abcd", Partial: sp("abcd"), Attempts: 3, Script: []c31Beh{dsrv("dd")}, Delta: &c31Delta{FormatOK: true, FromPresent: true, Content: "dd", X: "none"}},
+		c31In{Size: 4, Content: "abcd", Partial: sp("ab"), Attempts: 3, Script: []c31Beh{dsrv("dX"), good("abcd")}, Delta: &c31Delta{FormatOK: true, FromPresent: true, Content: "dd", X: "write", Out: "abcd"}},
+		c31In{Size: 4, Content: "abcd", Attempts: 3, Script: []c31Beh{good("abcd")}, Delta: &c31Delta{FormatOK: false, FromPresent: true, Content: "dd", X: "write", Out: "abcd"}},
+		c31In{Size: 4, Content: "abcd", Attempts: 3, Script: []c31Beh{dsrv("dd"), good("abcd")}, Delta: &c31Delta{FormatOK: true, FromPresent: false, Content: "dd", X: "write", Out: "abcd"}},
+		// cache entry + a file already at the second target path
+		c31In{Size: 4, Content: "abcd", Attempts: 3, Script: []c31Beh{good("abcd")}, Second: &c31Second{Pre: sp("GARBAGE"), Script: []c31Beh{good("abcd")}}},
+	)
 	// download cache: success then cache hit (no request although the second script would fail); failure then normal download
 	ins = append(ins,
 		c31In{Size: 4, Content: "abcd", Attempts: 3, Script: []c31Beh{good("abcd")}, Second: &c31Second{Partial: sp("XX"), Script: []c31Beh{good("XXXX")}}},
@@ -461,6 +561,42 @@ func c31Gen(r *vh.Rand, tier string, n int) []c31In {
 				sec.Script = append(sec.Script, c31Beh1(r, content))
 			}
 			in.Second = sec
+			if r.Chance(1, 3) {
+				in.Third = &c31Second{Partial: c31Partial(r, content), Leave: r.Bool(), Script: []c31Beh{c31Beh1(r, content), good(content)}}
+			}
+			if r.Chance(1, 4) { // a file already at a target path (cache hit keeps it: EEXIST)
+				g := r.Pick([]string{"GARBAGE", content, ""})
+				switch r.Intn(3) {
+				case 0:
+					in.Pre = &g
+				case 1:
+					sec.Pre = &g
+				default:
+					if in.Third != nil {
+						in.Third.Pre = &g
+					} else {
+						sec.Pre = &g
+					}
+				}
+			}
+		} else if r.Chance(1, 6) {
+			d := &c31Delta{FormatOK: r.Chance(9, 10), FromPresent: r.Chance(9, 10), Content: r.Str("dD", 1, 4), X: r.Pick([]string{"fail", "write", "write", "write", "none"})}
+			d.Out = c31Body(r, content)
+			if r.Bool() {
+				d.Out = content
+			}
+			// the delta is served first (mostly correctly), the rest of the script serves the full download
+			pre := []c31Beh{{Kind: "resp", Status: 200, HR: true, Body: d.Content, Cut: "full"}}
+			switch r.Intn(6) {
+			case 0:
+				pre = []c31Beh{{Kind: "resp", Status: 200, HR: true, Body: d.Content + "x", Cut: "full"}}
+			case 1:
+				pre = []c31Beh{{Kind: "resp", Status: 200, HR: true, Body: d.Content, Cut: "early", N: 1}, {Kind: "resp", Status: 200, HR: r.Bool(), Body: d.Content, Cut: "full"}}
+			case 2:
+				pre = []c31Beh{c31Beh1(r, d.Content)}
+			}
+			in.Script = append(pre, in.Script...)
+			in.Delta = d
 		}
 		ins = append(ins, in)
 	}
